@@ -1,7 +1,7 @@
 (* Property theorems for C15 -- statements only; proofs are `exact` of lemmas
    from C15/OrderProofs.v, C15/NameTableProofs.v, C15/Witness.v. *)
 From Coq Require Import List NArith ZArith Bool Sorting.Sorted.
-From GD Require Import C15.Order C15.OrderProofs C15.NameTable C15.NameTableProofs C15.Witness.
+From GD Require Import C15.Order C15.OrderProofs C15.NameTable C15.NameTableProofs C15.StructProofs C15.StructOps C15.Witness.
 Import ListNotations.
 
 (* --- the (length, bytes) order of _GD_EntryCmp is a strict total order --- *)
@@ -41,18 +41,55 @@ Proof. intros s e H. apply NameTableProofs.lookup_works. apply sorted_ok_iff. ex
 Definition inv_step_statement (c : cfg) : Prop :=
   forall s o, inv_full s = true -> inv_full (fst (step c s o)) = true.
 
-(* proved part: sortedness (hence uniqueness and lookup) is preserved by every
-   operation, successful or failed, in every repair configuration, except
-   gd_alter_affixes and renames whose new names collide *)
-Theorem inv_step_partial : forall c s o, sorted_ok s = true -> op_in_scope s o ->
-  sorted_ok (fst (step c s o)) = true.
-Proof. intros c s o H S. apply sorted_ok_iff. apply sorted_step; [apply sorted_ok_iff; exact H | exact S]. Qed.
-Theorem inv_run_partial : forall c ops s, sorted_ok s = true -> run_in_scope c s ops ->
-  sorted_ok (run c s ops) = true.
-Proof. intros c ops s H S. apply sorted_ok_iff. apply sorted_run; [apply sorted_ok_iff; exact H | exact S]. Qed.
-Example inv_step_partial_hypotheses_satisfiable :
+(* scope of the proved part: every operation except gd_alter_affixes and a
+   gd_rename whose new names collide (still possible: rename onto the name of a
+   dangling alias, see inv_step_refuted_rename_duplicate) *)
+Example scope_is_satisfiable :
   sorted_ok init_state = true /\ op_in_scope init_state (OAdd false None [97] T_CONST 0 false [] [] 1%Z).
 Proof. split; [vm_compute; reflexivity | exact I]. Qed.
+
+(* --- proved for all states, operations (success and failure), configurations, histories --- *)
+(* sortedness, hence unique names and working lookup *)
+Theorem inv_step_sorted : forall c s o, sorted_ok s = true -> op_in_scope s o ->
+  sorted_ok (fst (step c s o)) = true.
+Proof. intros c s o H S. apply sorted_ok_iff. apply sorted_step; [apply sorted_ok_iff; exact H | exact S]. Qed.
+
+(* the structural invariant InvAll = sorted /\ unique entry identities /\ subfield arrays hold live
+   metafields that point back, without duplicates /\ metafields are leaves and never RAW /\
+   reference_field is a live RAW entry or NULL /\ every /REFERENCE names a live RAW entry /\
+   every pointer in a valid cached list (D->fl, E->e->fl) points into the name buffer of a current
+   member of that container *)
+Theorem inv_init : InvAll init_state.
+Proof. exact Inv_init. Qed.
+Theorem inv_step : forall c s o, InvAll s -> op_in_scope s o -> InvAll (fst (step c s o)).
+Proof. exact Inv_step. Qed.
+Theorem inv_run : forall c ops s, InvAll s -> run_in_scope c s ops -> InvAll (run c s ops).
+Proof. exact Inv_run. Qed.
+
+(* what the structural invariant gives, in terms of the executable checks of the model *)
+Theorem inv_names_unique_and_found : forall s, InvAll s ->
+  NoDup (keys (s_ents s)) /\ forall e, In e (s_ents s) -> find_nd (s_ents s) (e_name e) = Some e.
+Proof.
+  intros s H. destruct H as (SS & _). split; [apply sorted_nodup; exact SS|].
+  intros e I. apply NameTableProofs.lookup_works; [exact SS | exact I].
+Qed.
+Theorem inv_reference_is_live_raw : forall s, InvAll s -> ref_ok s = true /\ fref_ok s = true.
+Proof. exact Inv_ref_ok. Qed.
+Theorem inv_cached_lists_point_to_live_names : forall s, InvAll s -> cache_live s = true.
+Proof. exact Inv_cache_live. Qed.
+Theorem inv_subfields_belong_to_parent : forall s P k, InvAll s -> In P (s_ents s) -> In k (e_kids P) ->
+  exists ch, by_id (s_ents s) k = Some ch /\ e_meta ch = true /\ e_par ch = Some (e_id P).
+Proof. exact Inv_subfields. Qed.
+
+(* all of it along every history from a fresh dirfile *)
+Theorem history_invariant : forall c ops, run_in_scope c init_state ops ->
+  let s := run c init_state ops in
+  sorted_ok s = true /\ ref_ok s = true /\ fref_ok s = true /\ cache_live s = true.
+Proof.
+  intros c ops H. pose proof (Inv_run c ops init_state Inv_init H) as I.
+  destruct (Inv_ref_ok _ I) as (A & B). pose proof (Inv_cache_live _ I) as C.
+  destruct I as (SS & _). cbv zeta. repeat split; auto. apply sorted_ok_iff. exact SS.
+Qed.
 
 (* gd_nentries = length of the (freshly computed) gd_entry_list, all parents/selectors/flags *)
 Theorem counts_agree : forall s parent sel flags par,
@@ -60,31 +97,34 @@ Theorem counts_agree : forall s parent sel flags par,
   nentries s parent sel flags = Some (length (compute_list (s_ents s) par sel flags)).
 Proof. exact counts_agree_fresh. Qed.
 
-(* --- refuted on the tree as it stands: one theorem per defect --- *)
-Theorem inv_step_refuted_delete_reference : exists s o, inv_full s = true /\ ref_ok (fst (step pinned s o)) = false.
-Proof. exists (w_delref_pre pinned), w_delref_op. pose proof w_delref; tauto. Qed.
-Theorem inv_step_refuted_hide_cache : exists s o, inv_full s = true /\ cache_consistent (fst (step pinned s o)) = false.
-Proof. exists (w_hide_pre pinned), w_hide_op. pose proof w_hide; tauto. Qed.
-Theorem inv_step_refuted_affix_cache : exists s o, inv_full s = true /\ cache_live (fst (step pinned s o)) = false.
-Proof. exists (w_affix_pre pinned), w_affix_op. pose proof w_affix; tauto. Qed.
-Theorem inv_step_refuted_delete_meta : exists s o, inv_full s = true /\ meta_ok (fst (step pinned s o)) = false.
-Proof. exists (w_delmeta_pre pinned), w_delmeta_op. pose proof w_delmeta; tauto. Qed.
-Theorem inv_step_refuted_rename_cache : exists s o, inv_full s = true /\ cache_live (fst (step pinned s o)) = false.
-Proof. exists (w_rencache_pre pinned), w_rencache_op. pose proof w_rencache; tauto. Qed.
-Theorem inv_step_refuted_rename_reference : exists s o, inv_full s = true /\ fref_ok (fst (step pinned s o)) = false.
-Proof. exists (w_renref_pre pinned), w_renref_op. pose proof w_renref; tauto. Qed.
-Theorem inv_step_refuted_add_spec_cache : exists s o, inv_full s = true /\ cache_consistent (fst (step pinned s o)) = false.
-Proof. exists (w_spec_pre pinned), w_spec_op. pose proof w_spec; tauto. Qed.
-Theorem inv_step_refuted_madd_parent : exists s o, inv_full s = true /\ meta_ok (fst (step pinned s o)) = false.
-Proof. exists (w_parent_pre pinned), w_parent_op. pose proof w_parent; tauto. Qed.
-Theorem inv_step_refuted_madd_alias : exists s o, inv_full s = true /\ meta_ok (fst (step pinned s o)) = false.
-Proof. exists (w_malias_pre pinned), w_malias_op. pose proof w_malias; tauto. Qed.
-(* these four survive every repair proposed so far (they hold for [fixed] too) *)
-Theorem inv_step_refuted_stale_alias : exists s o, inv_full s = true /\ alias_resolved (fst (step fixed s o)) = false.
-Proof. exists (w_stale_pre fixed), w_stale_op. exact w_stale. Qed.
-Theorem inv_step_refuted_alias_loop : exists s o, inv_full s = true /\ snd (step fixed s o) = RCrash K_ALIASLOOP.
-Proof. exists (w_loop_pre fixed), w_loop_op. exact w_loop. Qed.
-Theorem inv_step_refuted_rename_duplicate : exists s o, inv_full s = true /\ sorted_ok (fst (step fixed s o)) = false.
-Proof. exists (w_dup_pre fixed), w_dup_op. exact w_dup. Qed.
-Theorem inv_step_refuted_deref_force : exists s o, inv_full s = true /\ alias_live (fst (step fixed s o)) = false.
-Proof. exists (w_deref_pre fixed), w_deref_op. exact w_deref. Qed.
+(* --- still refuted on the tree as it stands --- *)
+Theorem inv_step_refuted_stale_alias : exists s o, inv_full s = true /\ alias_resolved (fst (step pinned s o)) = false.
+Proof. exists (w_stale_pre pinned), w_stale_op. pose proof w_stale; tauto. Qed.
+Theorem inv_step_refuted_cross_container_cache : exists s o, inv_full s = true /\ cache_consistent (fst (step pinned s o)) = false.
+Proof. exists (w_xcache_pre pinned), w_xcache_op. exact w_xcache. Qed.
+Theorem inv_step_refuted_rename_duplicate : exists s o, inv_full s = true /\ sorted_ok (fst (step pinned s o)) = false.
+Proof. exists (w_dup_pre pinned), w_dup_op. pose proof w_dup; tauto. Qed.
+Theorem inv_step_refuted_deref_force : exists s o, inv_full s = true /\ alias_live (fst (step pinned s o)) = false.
+Proof. exists (w_deref_pre pinned), w_deref_op. pose proof w_deref; tauto. Qed.
+(* with the proposed repairs C15-11 / C15-12 the last two witnesses keep the full invariant *)
+Theorem proposed_repairs_close_witnesses :
+  inv_full (fst (step fixed (w_dup_pre fixed) w_dup_op)) = true /\
+  inv_full (fst (step fixed (w_deref_pre fixed) w_deref_op)) = true.
+Proof. pose proof w_dup; pose proof w_deref; tauto. Qed.
+
+(* --- regression: the ten sequences that broke the invariant before the repairs in /repo --- *)
+Theorem repaired_witnesses_keep_full_invariant :
+  inv_full (fst (step pinned (w_delref_pre pinned) w_delref_op)) = true /\
+  inv_full (fst (step pinned (w_hide_pre pinned) w_hide_op)) = true /\
+  inv_full (fst (step pinned (w_affix_pre pinned) w_affix_op)) = true /\
+  inv_full (fst (step pinned (w_delmeta_pre pinned) w_delmeta_op)) = true /\
+  inv_full (fst (step pinned (w_rencache_pre pinned) w_rencache_op)) = true /\
+  inv_full (fst (step pinned (w_renref_pre pinned) w_renref_op)) = true /\
+  inv_full (fst (step pinned (w_spec_pre pinned) w_spec_op)) = true /\
+  inv_full (fst (step pinned (w_parent_pre pinned) w_parent_op)) = true /\
+  inv_full (fst (step pinned (w_malias_pre pinned) w_malias_op)) = true /\
+  inv_full (fst (step pinned (w_loop_pre pinned) w_loop_op)) = true.
+Proof.
+  pose proof w_delref; pose proof w_hide; pose proof w_affix; pose proof w_delmeta; pose proof w_rencache;
+  pose proof w_renref; pose proof w_spec; pose proof w_parent; pose proof w_malias; pose proof w_loop. tauto.
+Qed.
